@@ -6,6 +6,7 @@ import LcModel.Pool.Model
 import LcModel.Prove.Model
 import LcModel.Index.Model
 import LcModel.Sync.Model
+import LcModel.Filter.Model
 
 /-- `lcmodel <layer>`: one operation per stdin line, one answer per stdout line. -/
 partial def loop (h : IO.FS.Stream) (out : IO.FS.Stream) (f : String → String) : IO Unit := do
@@ -36,5 +37,6 @@ def main (args : List String) : IO UInt32 := do
   | ["prove"] => loopSt stdin stdout Prove.stepLine Prove.initSt; return 0
   | ["index"] => loopSt stdin stdout Index.stepLine ⟨[], [], [], [], [], []⟩; return 0
   | ["sync"] => loopSt stdin stdout Sync.stepLine ⟨[], 0, [], []⟩; return 0
+  | ["filter"] => loopSt stdin stdout Filter.stepLine Filter.initD; return 0
   | ["quorum"] => loopSt stdin stdout Quorum.step ⟨1, 1, [0], []⟩; return 0
   | _ => IO.eprintln "usage: lcmodel <layer>"; return 2
